@@ -290,6 +290,11 @@ def connStep (st : ConnState) (args : List String) : ConnState × String :=
     let t := st.c.stmtTime F fresh
     let out := if t < 0 then s!"clock same={if st.last == some t then 1 else 0}" else s!"t={t}"
     ({ st with clock := st.clock + 1, last := some t, wrote := true }, out)
+  | ["stmt", "other"] =>
+    -- a statement on another table of the connection: same stamp, but this table stays clean
+    let t := st.c.stmtTime F fresh
+    let out := if t < 0 then s!"clock same={if st.last == some t then 1 else 0}" else s!"t={t}"
+    ({ st with clock := st.clock + 1, last := some t }, out)
   | _ => (st, "bad-op")
 
 /-! ## table definitions -/
